@@ -108,3 +108,55 @@ def gen_ir(r, nparams=None, with_return=None, ret_default=None, with_doc=True, k
             rt["default"] = r.choice(RET_CODES)
         ret = OrderedDict((("return_type", rt),))
     return {"name": name, "doc": r.choice(["", "Summary line.", "Summary line.\n\nLonger description here."]), "params": params, "returns": ret, "type": ftype}
+
+
+# ----------------------------------------------------------------------------------------------
+# wrap-boundary stream: descriptions whose length is swept across textwrap.fill's width (100), so that with
+# emit_default_doc=True the line break falls at every position of " Defaults to <value>" (and just before / after it)
+# ----------------------------------------------------------------------------------------------
+# prose without default announcements, ad-hoc type triggers, colons, backticks or full stops
+WRAP_WORDS = ["tempo", "kept", "steady", "across", "every", "movement", "and", "again", "after", "each", "pause", "so", "that", "no", "bar", "drags",
+              "rushes", "while", "others", "wait", "a", "we", "go", "on", "until", "dusk", "falls", "slowly", "over", "hills", "beyond", "town"]
+WRAP_LENGTHS = list(range(52, 100))
+WRAP_DEFAULTS = [("int", 5), ("int", 0), ("int", 42), ("float", 0.5), ("float", 0.0), ("float", 3.14), ("bool", True), ("bool", False),
+                 ("str", "foo"), ("str", "a_b"), ("str", "x"), ("Optional[int]", 7), ("Union[int, float]", 0)]
+
+
+def prose_of_length(r, n):
+    """space-separated words, exactly `n` characters, no leading/trailing blank"""
+    for _ in range(200):
+        words, left = [], n
+        while left > 0:
+            cands = [w for w in WRAP_WORDS if len(w) == left or len(w) + 2 <= left]
+            if not cands:
+                break
+            w = r.choice(cands)
+            words.append(w)
+            left -= len(w) + (1 if left > len(w) else 0)
+        s = " ".join(words)
+        if len(s) == n:
+            return s[0].upper() + s[1:]
+    return ("x" * n)
+
+
+def gen_wrap_irs(r, lengths=None, per_length=1):
+    """interfaces with 2-4 parameters, all with defaults (int / float / bool / short str, some compound types); the description
+    lengths walk through `lengths` (every parameter takes the next one), so a run covers each length `per_length` times"""
+    lengths = list(lengths or WRAP_LENGTHS) * per_length
+    r.shuffle(lengths)
+    out = []
+    i = 0
+    while i < len(lengths):
+        n = min(r.randint(2, 4), max(2, len(lengths) - i))
+        names = r.sample(NAMES, n)
+        params = OrderedDict()
+        for nm in names:
+            typ, d = r.choice(WRAP_DEFAULTS)
+            L = lengths[i % len(lengths)]
+            i += 1
+            params[nm] = OrderedDict((("doc", prose_of_length(r, L)), ("typ", typ), ("default", d)))
+        ret = None
+        if r.random() < 0.3:
+            ret = OrderedDict((("return_type", OrderedDict((("doc", prose_of_length(r, r.choice(lengths))), ("typ", r.choice(["int", "List[int]"]))))),))
+        out.append({"name": "F", "doc": r.choice(["", "Summary line."]), "params": params, "returns": ret, "type": r.choice(["static", "self"])})
+    return out
